@@ -79,8 +79,11 @@ def streams(gen):
 _BASE = {}
 
 
+RAISER_TEXT = "the other message subscriber fails"
+
+
 def deliver(gen, stream, cuts, gap, debug=False, delays=None, send_in_gap=False, duo=False,
-            late_sub=False, flip_log=False, sub_on_connect=False, mutate=False):
+            late_sub=False, flip_log=False, sub_on_connect=False, mutate=False, raiser=None):
     """Deliver `stream` cut at `cuts`; returns (deliveries, closed, errors, status).
     send_in_gap: the application submits a command after every segment (sending and receiving
     go on at the same time on one connection).
@@ -91,6 +94,8 @@ def deliver(gen, stream, cuts, gap, debug=False, delays=None, send_in_gap=False,
     flip_log: the application changes the library's log level (WARNING <-> DEBUG) between the
     segments, as a "set log level" service does at run time.
     mutate: the subscriber changes every message object it is handed, in place.
+    raiser: a second message subscriber that fails for every frame ("all") or every other one
+    ("odd"), at once or after a loop turn ("late") - while the recording one may still be busy.
     sub_on_connect: the message subscriber is registered by a connection subscriber, from inside
     the connected=True notification, a loop turn after the console's first segment arrived."""
     import pyairtouch.comms.socket as psock
@@ -107,6 +112,17 @@ def deliver(gen, stream, cuts, gap, debug=False, delays=None, send_in_gap=False,
         w.mutate_msgs = mutate
         if delays:
             w.msg_delays = list(delays)
+        if raiser:
+            seen = []
+
+            async def failing(hdr, msg):
+                seen.append(1)
+                if raiser == "late":
+                    await asyncio.sleep(0)
+                if raiser != "odd" or len(seen) % 2:
+                    raise NotImplementedError(RAISER_TEXT)
+            w._failing = failing
+            w.sock.subscribe_on_message_received(failing)
         first_seg_done = []
         if sub_on_connect:
             w.sock.unsubcribe_on_message_received(w._on_msg)
@@ -185,7 +201,8 @@ def deliver(gen, stream, cuts, gap, debug=False, delays=None, send_in_gap=False,
         return out, closed
 
     res, log, st = H.run(main, debug_logging=debug)
-    errs = [e for e in log.events if e[2] in ("LOG.error", "LOOP.unhandled")]
+    errs = [e for e in log.events if e[2] in ("LOG.error", "LOOP.unhandled")
+            and not (raiser and e[2] == "LOG.error" and RAISER_TEXT in str(e[3].get("exc")))]
     if res is None:
         return None, True, errs, st
     return res[0], res[1], errs, st
@@ -222,6 +239,13 @@ def cases(tier, seed):
                            [0.05] * 8):
                 yield {"k": "cuts", "gen": gen, "stream": sname, "gap": "same_turn",
                        "cuts": [[], [n // 2]], "delays": delays}
+            # ... while another subscriber of the same socket fails for the same frames
+            for raiser in ("all", "odd", "late"):
+                yield {"k": "cuts", "gen": gen, "stream": sname, "gap": "same_turn",
+                       "cuts": [[], [n // 2], [n // 3, 2 * n // 3]],
+                       "delays": [0.02, 0.0, 0.3, 0.0, 0.0, 0.1, 0.0, 0.0], "raiser": raiser}
+                yield {"k": "cuts", "gen": gen, "stream": sname, "gap": "turn1",
+                       "cuts": [[], [n // 2]], "raiser": raiser}
             if full or tier == "thorough":
                 # the application keeps sending while the frames trickle in
                 ones_all = [[i] for i in range(1, n)]
@@ -326,7 +350,11 @@ def run_case(case):
                                             case.get("late_sub", False),
                                             case.get("flip_log", False),
                                             case.get("sub_on_connect", False),
-                                            case.get("mutate", False))
+                                            case.get("mutate", False),
+                                            case.get("raiser"))
+        if case.get("raiser"):
+            obs["sibling_subscriber_failing_meanwhile"] = obs.get(
+                "sibling_subscriber_failing_meanwhile", 0) + 1
         if case.get("mutate"):
             obs["subscriber_edits_the_messages_in_place"] = obs.get(
                 "subscriber_edits_the_messages_in_place", 0) + 1
